@@ -190,6 +190,8 @@ type runner struct {
 	// instead — the world must not be affected) and what the caller handed to Annihilates
 	kept    []keptSlice
 	nSpawns int
+	argbuf  []ecs.ComponentId // the caller's own argument buffer: rewritten in place and passed again (the world must not keep it)
+	nArgs   int
 	held    []heldResult
 }
 
@@ -479,6 +481,20 @@ func cids(cs []int) []ecs.ComponentId {
 	return out
 }
 
+// args: component ids as a caller would pass them — two calls out of three through ONE buffer that is rewritten in place
+// between the calls (buf = append(buf[:0], ...); w.Spawn(buf...)), otherwise a fresh slice
+func (r *runner) args(cs []int) []ecs.ComponentId {
+	r.nArgs++
+	if r.nArgs%3 == 0 {
+		return cids(cs)
+	}
+	r.argbuf = r.argbuf[:0]
+	for _, c := range cs {
+		r.argbuf = append(r.argbuf, ecs.ComponentId(c))
+	}
+	return r.argbuf
+}
+
 func (r *runner) kill(e *ent) {
 	e.alive = false
 	for i, l := range r.living {
@@ -662,14 +678,14 @@ func (r *runner) exec(s SOp) {
 			r.idType[id] = s.T
 		}
 	case "spawn":
-		res := call(func() Res { h := fromEntity(r.w.Spawn(cids(s.Cs)...)); return Res{K: "handle", H: &h} })
+		res := call(func() Res { h := fromEntity(r.w.Spawn(r.args(s.Cs)...)); return Res{K: "handle", H: &h} })
 		r.emit(COp{K: "spawn", Cs: s.Cs}, res)
 		if res.K == "handle" {
 			r.onSpawned("Spawn", *res.H, s.Cs)
 		}
 	case "spawns":
 		res := call(func() Res {
-			es := r.w.Spawns(s.N, cids(s.Cs)...)
+			es := r.w.Spawns(s.N, r.args(s.Cs)...)
 			hs := make([]H, len(es))
 			for i, e := range es {
 				hs[i] = fromEntity(e)
